@@ -135,9 +135,10 @@ Qed.
 Lemma In_dists D G p : In p (dists D G) -> In (fst p) D.
 Proof. unfold dists. intro Hp. apply in_map_iff in Hp. destruct Hp as [s [E Hs]]. subst p. exact Hs. Qed.
 
-Lemma In_schedule D G s b :
-  In (s, b) (schedule D G) ->
-  In s D /\ (b = left_boundary s \/ b = lo s \/ (b = G /\ (contains_rc G s = true \/ contains_lc G s = true))).
+Lemma In_schedule fx D G s b :
+  In (s, b) (schedule fx D G) ->
+  In s D /\ (b = left_boundary s \/ b = lo s \/
+             (b = G /\ (contains_rc G s = true \/ contains_lc G s = true \/ (G = NegInf /\ contains_rc PosInf s = true)))).
 Proof.
   unfold schedule. rewrite !in_app_iff. intros [Hl|[Hr|Hc]].
   - apply in_map_iff in Hl. destruct Hl as [s' [E Hs]]. inversion E; subst s' b.
@@ -147,18 +148,21 @@ Proof.
     unfold right_segs in Hs. apply in_map_iff in Hs. destruct Hs as [p [E' Hp]]. subst s.
     apply In_sort_by, filter_In in Hp. destruct Hp as [Hp _]. apply In_dists in Hp. tauto.
   - apply in_map_iff in Hc. destruct Hc as [s' [E Hs]]. inversion E; subst s' b.
-    unfold containing in Hs. destruct (filter (contains_rc G) D) as [|c0 ct] eqn:F.
-    + apply filter_In in Hs. destruct Hs as [Hs Hc]. tauto.
-    + rewrite <- F in Hs. apply filter_In in Hs. destruct Hs as [Hs Hc]. tauto.
+    unfold containing in Hs. apply filter_In in Hs. destruct Hs as [Hs Hm].
+    split; [exact Hs|]. right; right. split; [reflexivity|].
+    apply orb_true_iff in Hm. destruct Hm as [Hm|Hm].
+    + unfold goal_mask in Hm. destruct (existsb (contains_rc G) D); tauto.
+    + apply andb_true_iff in Hm. destruct Hm as [Hm1 Hm2]. apply andb_true_iff in Hm1. destruct Hm1 as [Hn _].
+      right; right. split; [destruct G; try discriminate; reflexivity|exact Hm2].
 Qed.
 
 (* a diagram-level criterion: every step the schedule can contain is good *)
 Definition good_diagram (H : ExtQ -> Q) (D : list Seg) (G : ExtQ) : Prop :=
   forall s, In s D ->
     good_step H (s, left_boundary s) /\ good_step H (s, lo s) /\
-    (contains_rc G s = true \/ contains_lc G s = true -> good_step H (s, G)).
+    (contains_rc G s = true \/ contains_lc G s = true \/ (G = NegInf /\ contains_rc PosInf s = true) -> good_step H (s, G)).
 
-Lemma good_schedule H D G : good_diagram H D G -> Forall (good_step H) (schedule D G).
+Lemma good_schedule fx H D G : good_diagram H D G -> Forall (good_step H) (schedule fx D G).
 Proof.
   intro HD. apply Forall_forall. intros [s b] Hsb. apply In_schedule in Hsb.
   destruct Hsb as [Hs Hb]. destruct (HD s Hs) as [G1 [G2 G3]].
@@ -166,10 +170,10 @@ Proof.
 Qed.
 
 (* the invariant of the whole transformation *)
-Theorem transform_invariant H D G c :
+Theorem transform_invariant fx H D G c :
   good_diagram H D G -> cyc_okR (snd c) ->
-  fst (transform_state D G c) * H (snd (transform_state D G c)) == fst c * H (snd c).
+  fst (transform_state fx D G c) * H (snd (transform_state fx D G c)) == fst c * H (snd c).
 Proof.
   intros HD Hc. unfold transform_state.
-  exact (proj1 (fold_invariant H (schedule D G) c (good_schedule H D G HD) Hc)).
+  exact (proj1 (fold_invariant H (schedule fx D G) c (good_schedule fx H D G HD) Hc)).
 Qed.
